@@ -25,6 +25,7 @@ func runC17(c *core.Ctx) {
 	c.RuleDoc("R17.1", "nullable pointer field: every dereference guarded by a dominating non-nil test")
 	c.RuleDoc("R17.5", "every success return of a handle method lies on a path that consulted the closed mark or delegated")
 	c.RuleDoc("R17.10", "no method of a file handle returns with a mutex held")
+	c.RuleDoc("R17.12", "a method of the os-backed handle returns the error of the *os.File call it makes")
 	c.RuleDoc("R17.11", "a File helper hands its file's error on instead of answering with its own")
 	c.RuleDoc("R17.9", "a second Close fails")
 	c.RuleDoc("R17.8", "every error of the OS-backed handle is the inner *os.File's (a closed handle answers ErrClosed whatever the arguments)")
@@ -41,6 +42,7 @@ func runC17(c *core.Ctx) {
 		r17HandleOnly(c, p)
 		r17WrapperAnswersLast(c, p)
 		r17HelpersKeepTheHandleError(c, p)
+		r17OSHandleErrorsKept(c, p)
 		if fileI := stdIface(p, "io/fs", "File"); fileI != nil {
 			var hm []*ssa.Function
 			for _, n := range implementers(p, fileI) {
@@ -63,6 +65,7 @@ func runC17(c *core.Ctx) {
 	c.Floor("R17.7", 10)
 	c.Floor("R17.8", 10)
 	c.Floor("R17.9", 2)
+	c.Floor("R17.12", 8)
 	c.Floor("R17.11", 8)
 	c.Floor("R17.3", 8)
 	c.Floor("R17.4", 1)
@@ -985,4 +988,40 @@ func r17NoLockLeakInHandles(c *core.Ctx, p *load.Program, fns []*ssa.Function, r
 			fmt.Sprintf("%s can return at %s with a mutex of its receiver still locked: the call itself answers correctly, the next call on the same handle blocks for ever", fname(fn), bad))
 	}
 	return n
+}
+
+// r17OSHandleErrorsKept (R17.12): every method of the os-backed file handle returns (translated) the error of the
+// *os.File method it calls, on every path on which that error is non-nil. An allow-list ("only EIO/ENOSPC mean data
+// was lost, anything else is not a failure") swallows "file already closed": Sync on a closed handle answers nil.
+func r17OSHandleErrorsKept(c *core.Ctx, p *load.Program) {
+	if p.Target == load.Wasm {
+		return
+	}
+	n := p.Named("os", "file")
+	if n == nil {
+		c.Hard("anchor: os.file")
+		return
+	}
+	cnt := 0
+	for _, fn := range methodList(p, n) {
+		bad, good := dropCheck(p, fn, dropOpts{only: func(ci ssa.CallInstruction) bool {
+			callee := ssax.StaticCallee(ci)
+			return callee != nil && callee.Pkg != nil && callee.Pkg.Pkg.Path() == "os" && callee.Signature.Recv() != nil
+		}})
+		for _, g := range good {
+			cnt++
+			c.OK("R17.12", g.Key, g.Pos, g.Msg)
+		}
+		for _, b := range bad {
+			cnt++
+			if b.Kind == "undecided" {
+				c.Unknown("R17.12", b.Key, b.Pos, b.Msg)
+			} else {
+				c.Bad("R17.12", b.Key, b.Pos, b.Msg+" — on a closed handle the os call fails with 'file already closed' and the method must say so")
+			}
+		}
+	}
+	if cnt == 0 {
+		c.Hard("anchor: *os.File calls in the methods of os.file")
+	}
 }
